@@ -436,6 +436,42 @@ pub fn run(r: &Report) {
         }
         r.set_extra("constructor_values", json!(n_ctor + 16));
     }
+    // length accessors that promise the encoded length without encoding: confidential::{Asset, Value, Nonce}::encoded_length
+    // and encode::VarInt::size on both sides of every width boundary
+    {
+        for a in gen::assets() {
+            let v = to_asset(&a);
+            if v.encoded_length() != serialize(&v).len() {
+                r.violation("value/Asset/encoded_length", json!({"hex": crate::engine::hex(&serialize(&v))}), format!("encoded_length() = {} but {} bytes are written", v.encoded_length(), serialize(&v).len()));
+            }
+        }
+        for a in gen::values() {
+            let v = to_value(&a);
+            if v.encoded_length() != serialize(&v).len() {
+                r.violation("value/Value/encoded_length", json!({"hex": crate::engine::hex(&serialize(&v))}), format!("encoded_length() = {} but {} bytes are written", v.encoded_length(), serialize(&v).len()));
+            }
+        }
+        for a in gen::nonces() {
+            let v = to_nonce(&a);
+            if v.encoded_length() != serialize(&v).len() {
+                r.violation("value/Nonce/encoded_length", json!({"hex": crate::engine::hex(&serialize(&v))}), format!("encoded_length() = {} but {} bytes are written", v.encoded_length(), serialize(&v).len()));
+            }
+        }
+        for n in [0u64, 1, 0xfc, 0xfd, 0xfe, 0xff, 0x100, 0xfffe, 0xffff, 0x1_0000, 0x1_0001, 0xffff_fffe, 0xffff_ffff, 0x1_0000_0000, 0x1_0000_0001, u64::MAX - 1, u64::MAX] {
+            r.trans(1);
+            let vi = elements::encode::VarInt(n);
+            let mut w = Vec::new();
+            match vi.consensus_encode(&mut w) {
+                Ok(len) => {
+                    let back = deserialize::<elements::encode::VarInt>(&w).map(|x| x.0);
+                    if len != w.len() || vi.size() != w.len() || back.as_ref().ok() != Some(&n) {
+                        r.violation("value/VarInt/size", json!({"n": n}), format!("VarInt({}): size() = {}, encoder reported {}, wrote {} bytes, decodes to {:?}", n, vi.size(), len, w.len(), back));
+                    }
+                }
+                Err(e) => r.violation("value/VarInt/encode-error", json!({"n": n}), format!("{:?}", e)),
+            }
+        }
+    }
     // dynafed params, headers, blocks
     let fulls = gen::full_params(thorough);
     r.set_extra("full_params_generated", json!(fulls.len()));
